@@ -70,7 +70,7 @@ def relation(rounding, c, num, s):
 def judge(acc, fmt, rounding, overflow, ds, part, mono, carrier='farr'):
     """one array store; relation on every in-range element; monotonicity over the whole (sorted) input if mono.
     carrier: farr = float64 array, iarr = int64 array (integer inputs only), int = Python ints one by one"""
-    if carrier == 'farr':
+    if carrier in ('farr', 'setitem'):
         vals = np.array([dy_float(d) for d in ds], dtype=np.float64)
     else:
         ds = [d for d in ds if d[1] == 0]
@@ -82,7 +82,14 @@ def judge(acc, fmt, rounding, overflow, ds, part, mono, carrier='farr'):
     acc.transitions += 1
     acc.dim('carrier', carrier, len(ds))
     try:
-        if carrier == 'int':
+        if carrier == 'setitem':
+            # an array built earlier from integers (integer value type when n_frac <= 0), then item assignment of each value
+            x = mk([0] * len(ds), fmt, rounding, overflow)
+            for i, d in enumerate(ds):
+                x[i] = dy_float(d)
+                acc.transitions += 1
+            got, fl = codes(x), flags(x)
+        elif carrier == 'int':
             got, fl = [], (False, False, False)
             for d in ds:
                 x = mk(d[0], fmt, rounding, overflow)
@@ -201,6 +208,8 @@ def run_shard(sh):
             for r in ROUNDINGS:
                 judge(acc, fmt, r, 'saturate', ds, 'S', True)
                 judge(acc, fmt, r, 'wrap', inr, 'S', False)
+                if nw <= 3:
+                    judge(acc, fmt, r, 'saturate', ds, 'S', True, 'setitem')
                 if nf < 0:          # integer carriers take their own path through scaling when n_frac < 0
                     judge(acc, fmt, r, 'saturate', ds, 'S', True, 'iarr')
                     judge(acc, fmt, r, 'wrap', inr, 'S', False, 'iarr')
@@ -270,7 +279,7 @@ def finish(merged, tier, seed):
     for r in ROUNDINGS:
         if merged['dims']['rounding'].get(r, 0) < 1000:
             raise HarnessError('rounding %s under-exercised' % r)
-    for c in ('farr', 'iarr', 'int'):
+    for c in ('farr', 'iarr', 'int', 'setitem'):
         if merged['dims']['carrier'].get(c, 0) < 1000:
             raise HarnessError('carrier %s under-exercised' % c)
     return {}
